@@ -14,8 +14,22 @@ from numpy.exceptions import VisibleDeprecationWarning as NumpyVisibleDeprecatio
 
 
 class KGChar(str):
-    """Character type for Klong."""
-    pass
+    """Character type for Klong (the members of a string: "abc"@0, Each over a string)."""
+    # Same rule as klongpy.types.KGChar: a character never equals a symbol.  KGSym.__eq__
+    # refuses anything that is not a symbol, so the inherited str.__eq__ made
+    # `KGChar('a') == KGSym('a')` True one way only, and a dictionary entry stored under
+    # "abc"@0 was found / overwritten / removed by :a (types.py cannot be imported here).
+    def __eq__(self, o):
+        if type(o).__name__ == 'KGSym':
+            return False
+        return str.__eq__(self, o)
+
+    def __ne__(self, o):
+        if type(o).__name__ == 'KGSym':
+            return True
+        return str.__ne__(self, o)
+
+    __hash__ = str.__hash__
 
 
 class NumpyBackendProvider(BackendProvider):
